@@ -34,6 +34,7 @@ from vlib.val import line, Word
 from translate import deriv_dispatch
 
 ID = 'C03'
+PYOVERRIDE_METHODS = ['Curve.derivative', 'Surface.derivative']   # Curve/Surface overrides re-translated and proved equal to the hand model each run
 PYOBJECT_METHODS = ['derivative']   # splineobject.py methods re-translated and proved equal to the hand model each run
 RTOL = 1e-8
 ATOL = 1e-10
